@@ -27,6 +27,10 @@ def atoms():
         ("e_eq", E(["==", ["start", "a"], 2])),
         ("e_gt", E([">", ["end", "b"], ["end", "a"]])),
         ("e_sum", E(["==", ["+", ["start", "a"], ["start", "b"]], 3])),
+        # operands made of SEVERAL assertions
+        ("contig", {"$new": con("TasksContiguous", None, list_of_tasks=[R("a"), R("b")])}),
+        ("count", {"$new": con("ScheduleNTasksInTimeIntervals", None, list_of_tasks=[R("a"), R("b")], nb_tasks_to_schedule=1,
+                               list_of_time_intervals=[(0, 2), (2, 4)], kind="min")}),
     ]
 
 
@@ -190,6 +194,22 @@ def optional_constraint_programs(tier):
     return out
 
 
+def multi_assertion_operand_programs():
+    """Operands whose own meaning is a conjunction of several assertions (each interval / case is one assertion)."""
+    base = [fixed("a", 1), fixed("b", 2), worker("w"), req("a", "w"), req("b", "w")]
+    un2 = lambda: {"$new": con("ResourceUnavailable", "n1", resource=R("w"), list_of_time_intervals=[(0, 1), (3, 4)])}
+    wl = lambda: {"$new": con("WorkLoad", "n1", resource=R("w"), kind="max", dict_time_intervals_and_bound={"$tupkeys": [[[0, 2], 1], [[2, 4], 1]]})}
+    out = []
+    for lab, mk_ in (("unavailable2", un2), ("workload2", wl)):
+        out.append((f"multi:Not/{lab}", prog(4, base + [con("Not", "t", constraint=mk_())])))
+        out.append((f"multi:Implies/{lab}", prog(4, base + [con("Implies", "t", condition=E(["==", ["start", "a"], 0]), list_of_constraints=[mk_()])])))
+        out.append((f"multi:Or/{lab}", prog(4, base + [con("Or", "t", list_of_constraints=[mk_(), E(["==", ["start", "b"], 2])])])))
+        out.append((f"multi:Xor/{lab}", prog(4, base + [con("Xor", "t", constraint_1=mk_(), constraint_2=E(["==", ["start", "b"], 2]))])))
+        out.append((f"multi:IfThenElse/{lab}", prog(4, base + [con("IfThenElse", "t", condition=E([">=", ["start", "a"], 2]), then_list_of_constraints=[mk_()],
+                                                                else_list_of_constraints=[E([">=", ["start", "b"], 1])])])))
+    return out
+
+
 def referenced_operand_programs():
     """Operands declared first as stand-alone constraints, then used inside a connective by reference."""
     base = [fixed("a", 1), fixed("b", 2)]
@@ -213,7 +233,7 @@ def jobs(tier):
         for sk in ((0,) if tier == "quick" and i % 5 else (0, 1, 2)):
             out.append({"program": prog(4, scene(sk) + [top(f)]), "families": FAM, "family": lab.split("(")[0] if lab.startswith("d3") else lab,
                         "directions": "SK"})
-    for (lab, p) in optional_constraint_programs(tier) + referenced_operand_programs():
+    for (lab, p) in optional_constraint_programs(tier) + referenced_operand_programs() + multi_assertion_operand_programs():
         out.append({"program": p, "families": ["task", "resource", "constraint"], "family": lab, "directions": "SK"})
     return out
 
